@@ -62,7 +62,7 @@ class WelchTTest(BaseStatisticalTest):
             a=X_ref,
             b=X,
             equal_var=False,
-            alternative=kwargs.get("alternative", "two-sided"),
+            alternative=kwargs.pop("alternative", "two-sided"),
             **kwargs,
         )
         test = StatisticalResult(
